@@ -6,13 +6,26 @@
      C04_Pair     on every (S, T): for every list of length <= 3 over the type-compatible isos (pairwise different
                   target fields) and nil, from several states of both structures: Forward then Inverse restores S,
                   Forward changes only the target foci, Inverse only the source foci; the same against a map *)
-EXTENDS OpticsCompose
+EXTENDS OpticsCompose, LayoutBoundary
 CONSTANTS LeafTypes, EmbKinds, NamedStructs, NameMode, TagMode, MaxFields, MaxDepth, MaxSub, MaxTotal,
-          MaxFieldsT, MaxDepthT, MaxTotalT, MaxIsos
+          MaxFieldsT, MaxDepthT, MaxTotalT, MaxIsos, WithBoundary
 VARIABLES sS, sT
 SB == INSTANCE LayoutShapes WITH sh <- sS, TypePrefix <- ""
 TB == INSTANCE LayoutShapes WITH sh <- sT, TypePrefix <- "U", NamedStructs <- FALSE, MaxFields <- MaxFieldsT, MaxDepth <- MaxDepthT, MaxTotal <- MaxTotalT
-Init == sS = <<>> /\ sT = <<>>
+\* hand-written pairs (initial states next to the empty pair): Join chains through named and embedded structs with
+\* padding, nine-field structs for the ShapeN arities, isos between fields at different offsets
+BoundaryPairs == {
+  << Boundary[15], << L("F1", "int8"), L("f2", "int64"), L("F3", "int16"), L("f4", "[3]int8") >> >>,
+  << Boundary[13], << L("I", "*int"), L("H", "any"), L("G", "int32"), L("F", "[]byte"), L("E", "int8"), L("D", "string"), L("C", "int16"), L("B", "int64"), L("A", "bool") >> >>,
+  << Boundary[14], Boundary[14] >>,
+  << Boundary[6], << L("A", "bool"), L("B", "int64"), L("C", "bool"), L("D", "int32"), L("E", "int16") >> >>,
+  << << L("A", "int8"), NS("S", "S1", << L("A", "int8"), EV("E1", << L("B", "int64"), NS("T", "S2", << L("C", "int16"), L("D", "bool") >>) >>), L("Z", "string") >>), L("B", "int64") >>,
+     << L("A", "string"), EV("UE1", << L("B", "int8"), L("C", "int64") >>) >> >>,
+  << Boundary[18], << L("X", "float64"), L("Y", "uint16"), L("Z", "[]byte"), L("W", "string") >> >>,
+  \* one field for each of BiMapF / BiMapB / BiMapS (BiMapI is everywhere)
+  << << L("A", "float64"), L("B", "[]byte"), L("C", "string") >>, << L("X", "string"), L("Y", "float64"), L("Z", "[]byte") >> >> }
+
+Init == \E p \in ({<<<<>>, <<>>>>} \cup (IF WithBoundary THEN BoundaryPairs ELSE {})) : sS = p[1] /\ sT = p[2]
 Next == (sT = <<>> /\ SB!Next /\ UNCHANGED sT) \/ (sS # <<>> /\ TB!Next /\ UNCHANGED sS)
 Spec == Init /\ [][Next]_<<sS, sT>>
 
@@ -33,27 +46,35 @@ C04_Single ==
        LET ls == [i \in 1..n |-> Prim(<<lens[i].cell, lens[i].cell>>)]  ys == [i \in 1..n |-> <<(i + r) % lens[i].nv>>]
        IN ShapeAsComponents(ls, vals, ys)
 
-\* the isos of a pair: same leaf type on both sides
-IsoSet(ls, lt) == LET all == {[kind |-> "iso", s |-> Prim(<<ls[i].cell, ls[i].cell>>), t |-> Prim(<<lt[j].cell, lt[j].cell>>), si |-> i, ti |-> j] :
-                                i \in {i \in 1..Len(ls) : TRUE}, j \in {j \in 1..Len(lt) : TRUE}} IN
-                  {x \in all : ls[x.si].ty = lt[x.ti].ty}
-\* lists of length <= 3 whose different isos have different target fields
-Lists(isos) == LET E == isos \cup {Nil}
-                   ok(q) == \A a \in 1..Len(q), b \in 1..Len(q) : (q[a].kind # "nil" /\ q[b].kind # "nil" /\ q[a] # q[b]) => q[a].ti # q[b].ti
-               IN {q \in (UNION {[1..n -> E] : n \in 1..3}) : ok(q)}
-Some(S, n) == IF Cardinality(S) <= n THEN S ELSE {x \in S : Cardinality({y \in S : y.si * 100 + y.ti < x.si * 100 + x.ti}) < n}
+\* the isos of a pair (same leaf type on both sides), at most MaxIsos of them, as a sequence
+IsoSeq(ls, lt) == LET all == {<<i, j>> \in (1..Len(ls)) \X (1..Len(lt)) : ls[i].ty = lt[j].ty}
+                      few == {x \in all : Cardinality({y \in all : y[1] * 100 + y[2] < x[1] * 100 + x[2]}) < MaxIsos}
+                      sq == SetToSeq(few)
+                  IN [n \in 1..Len(sq) |-> [kind |-> "iso", s |-> Prim(<<ls[sq[n][1]].cell, ls[sq[n][1]].cell>>),
+                                              t |-> Prim(<<lt[sq[n][2]].cell, lt[sq[n][2]].cell>>), si |-> sq[n][1], ti |-> sq[n][2]]]
 MapKeys == {"k1", "k2", "k3"}
-IsoSetM(ls) == {[kind |-> "isoM", s |-> Prim(<<ls[i].cell, ls[i].cell>>), key |-> k, si |-> i, ti |-> IF k = "k1" THEN 1 ELSE 2] :
-                  i \in {i \in 1..Len(ls) : ls[i].ty = ls[1].ty}, k \in {"k1", "k2"}}
+\* ... against a map[string]A, A = the type of the first leaf lens of S: fields of that type paired with two keys
+IsoSeqM(ls) == LET all == {<<i, k>> \in (1..Len(ls)) \X {1, 2} : ls[i].ty = ls[1].ty}
+                   few == {x \in all : Cardinality({y \in all : y[1] * 100 + y[2] < x[1] * 100 + x[2]}) < MaxIsos}
+                   sq == SetToSeq(few)
+               IN [n \in 1..Len(sq) |-> [kind |-> "isoM", s |-> Prim(<<ls[sq[n][1]].cell, ls[sq[n][1]].cell>>),
+                                           key |-> IF sq[n][2] = 1 THEN "k1" ELSE "k2", si |-> sq[n][1], ti |-> sq[n][2]]]
+\* lists (of indices into an iso sequence, 0 = nil) of length <= 3 whose different isos have different targets
+Lists(isos) == LET ok(q) == \A a \in 1..Len(q), b \in 1..Len(q) : (q[a] # 0 /\ q[b] # 0 /\ q[a] # q[b]) => isos[q[a]].ti # isos[q[b]].ti
+               IN {q \in (UNION {[1..n -> 0..Len(isos)] : n \in 1..3}) : ok(q)}
+Entries(isos, q) == [i \in 1..Len(q) |-> IF q[i] = 0 THEN Nil ELSE isos[q[i]]]
+EmptyMap == [k \in MapKeys |-> -1]
+FullMap == [k \in MapKeys |-> IF k = "k3" THEN 2 ELSE 1]
 C04_Pair ==
   (sS # <<>> /\ sT # <<>>) =>
-  LET csS == Cells(sS)  csT == Cells(sT)  ls == LeafLenses(sS)  lt == LeafLenses(sT) IN
-  /\ \A q \in Lists(Some(IsoSet(ls, lt), MaxIsos)), r1 \in 0..2, r2 \in 0..2 :
-       /\ RoundTrip(q, Pattern(csS, r1), Pattern(csT, r2))
-       /\ InverseFrame(q, Pattern(csT, r2), Pattern(csS, r1))
+  LET csS == Cells(sS)  csT == Cells(sT)  ls == LeafLenses(sS)  lt == LeafLenses(sT)  isos == IsoSeq(ls, lt) IN
+  /\ \A q \in Lists(isos), r1 \in 0..2, r2 \in 0..2 :
+       /\ RoundTrip(Entries(isos, q), Pattern(csS, r1), Pattern(csT, r2))
+       /\ InverseFrame(Entries(isos, q), Pattern(csT, r2), Pattern(csS, r1))
   /\ Len(ls) > 0 =>
-       \A q \in Lists(Some(IsoSetM(ls), MaxIsos)), r1 \in 0..2, m \in {[k \in MapKeys |-> -1], [k \in MapKeys |-> IF k = "k3" THEN 2 ELSE 1]} :
-          /\ RoundTripM(q, Pattern(csS, r1), m)
-          /\ InverseFrame(q, m, Pattern(csS, r1))
+       LET im == IsoSeqM(ls) IN
+       \A q \in Lists(im), r1 \in 0..2, m \in {EmptyMap, FullMap} :
+          /\ RoundTripM(Entries(im, q), Pattern(csS, r1), m)
+          /\ InverseFrame(Entries(im, q), m, Pattern(csS, r1))
           /\ \A k \in MapKeys : MapOnlyKey(m, k, 2)
 ====
